@@ -15,7 +15,7 @@ import (
 	"context"
 	"os"
 	"fmt"
-	"sync/atomic"
+	"sync"
 	"testing"
 	"time"
 
@@ -64,23 +64,39 @@ func genCScript(t *rapid.T) CScript {
 // Close flushes never reaches the disk).
 type mortalKV struct {
 	xkv.DB
-	dead atomic.Bool
+	// mu makes "is the process still alive" and the write one step: a write that has passed the
+	// check completes before the crash instant (kill takes the write lock). Without it a flush
+	// goroutine of the dead run that was descheduled between the check and the write could
+	// overwrite, much later, what the next run has persisted - something a dead process cannot do
+	// (seen once on a heavily loaded machine: a run came back with its predecessor's generation).
+	mu   sync.RWMutex
+	dead bool
+}
+
+func (m *mortalKV) kill() {
+	m.mu.Lock()
+	m.dead = true
+	m.mu.Unlock()
 }
 
 func (m *mortalKV) Set(ctx context.Context, key, value []byte, opts ...any) error {
+	m.mu.RLock()
+	defer m.mu.RUnlock()
 	if os.Getenv("VERIF_C12_DEBUG") != "" {
 		var st store.State
 		_ = msgpack.Codec.Decode(ctx, value, &st)
-		fmt.Printf("C12DEBUG   kv.Set via wrapper %p dead=%v host=%d hb=%+v\n", m, m.dead.Load(), st.HostKey, st.Nodes[st.HostKey].Heartbeat)
+		fmt.Printf("C12DEBUG   kv.Set via wrapper %p dead=%v host=%d hb=%+v\n", m, m.dead, st.HostKey, st.Nodes[st.HostKey].Heartbeat)
 	}
-	if m.dead.Load() {
+	if m.dead {
 		return nil
 	}
 	return m.DB.Set(ctx, key, value, opts...)
 }
 
 func (m *mortalKV) Delete(ctx context.Context, key []byte, opts ...any) error {
-	if m.dead.Load() {
+	m.mu.RLock()
+	defer m.mu.RUnlock()
+	if m.dead {
 		return nil
 	}
 	return m.DB.Delete(ctx, key, opts...)
@@ -94,7 +110,9 @@ type mortalTx struct {
 }
 
 func (t *mortalTx) Commit(ctx context.Context, opts ...any) error {
-	if t.m.dead.Load() {
+	t.m.mu.RLock()
+	defer t.m.mu.RUnlock()
+	if t.m.dead {
 		return nil
 	}
 	return t.Tx.Commit(ctx, opts...)
@@ -199,7 +217,7 @@ func executeCluster(sc CScript, rep *kit.Report) error {
 			n := nodes[op.N%sc.N]
 			learn()
 			if op.Kind == "crash" {
-				n.kv.dead.Store(true) // nothing written from now on reaches the store
+				n.kv.kill() // nothing written from now on reaches the store
 				rep.Class("crash")
 			} else {
 				rep.Class("graceful-restart")
@@ -210,7 +228,7 @@ func executeCluster(sc CScript, rep *kit.Report) error {
 			// the process is gone once Close has returned: the cluster store flushes from
 			// untracked goroutines (x/kv.Subscriber.Flush), and one of the finished run that is
 			// scheduled late must not write into the store the next run has already opened
-			n.kv.dead.Store(true)
+			n.kv.kill()
 			n.cl = nil
 			if os.Getenv("VERIF_C12_DEBUG") != "" {
 				var st store.State
